@@ -23,10 +23,13 @@ import Proofs.OpGuardLift
 import Proofs.OpGuardSetBlock
 import Proofs.OpGuardSbtWalk
 import Proofs.OpGuardB
+import Proofs.FitDeleteNorm
+import Proofs.GapTailFits
 import PM.OpGuardNode
 import Props.C01
 import Props.C12
 import Props.C11
+import Props.Family
 namespace PM.C04
 open PM
 
@@ -3922,4 +3925,675 @@ theorem replace_residual_cut (S : Schema) (hdet : PM.C11.detB S = true) (hfill :
     | addNodeMark _ _ => exact hs
     | removeNodeMark _ _ => exact hs
 
+/-! #### editing histories: structural, node-level and mark operations, deletions, typing, pasted slices -/
+
+/-- what `Transform.replace(from, to, slice)` appended to the history: nothing (then the document is unchanged), or
+    the one step `replace_step` answered on the current document, applied -/
+theorem replaceOp_recorded (S : Schema) (tr tr1 : Tr) (hlen : tr.steps.length = tr.docs.length) (f t : Nat)
+    (sl : Slice) (h : tr.runOp S (.replace f t sl) = some tr1) :
+    (appended tr tr1 = [] ∧ tr1.doc = tr.doc) ∨
+    ∃ s, replaceStep S tr.doc f t sl = .ok (some s) ∧ appended tr tr1 = [(s, tr.doc)] ∧
+      S.apply s tr.doc = .ok tr1.doc := by
+  have h' : tr.planned (fun st => st.replaceF S f t sl) = some tr1 := h
+  obtain ⟨st', hrun, htr⟩ := Tr.planned_some h'
+  obtain ⟨r, hr, hstep⟩ := PSt.replaceF_spec S { tr := tr } st' f t sl hrun
+  simp only at hr hstep
+  cases r with
+  | none =>
+    simp only at hstep
+    have e : tr1.hist = tr.hist ++ [] := by rw [← htr, hstep]; simp
+    exact Or.inl ⟨appended_eq e, by rw [← htr, hstep]⟩
+  | some s =>
+    simp only at hstep
+    rw [htr] at hstep
+    obtain ⟨e, ha⟩ := Tr.step_hist hlen hstep
+    exact Or.inr ⟨s, hr, appended_eq e, ha⟩
+
+/-- what is asked of the step a `replace` recorded: the emitted slice is in normal form (no empty text node, no
+    adjacent text nodes with equal marks); for a `ReplaceAroundStep` the fit guard `gapFitsBack` of the inverse.
+    Both are Boolean functions of the recorded step and the document it was applied to. -/
+def RecordedReplaceOk (S : Schema) (s : Step) (d : Node) : Prop :=
+  match s with
+  | .replace _ _ sl _ => fnorm sl.content = true
+  | .replaceAround f t gf gt sl _ _ => fnorm sl.content = true ∧ gapFitsBack S d f t gf gt = true
+  | _ => True
+
+instance (S : Schema) (s : Step) (d : Node) : Decidable (RecordedReplaceOk S s d) := by
+  unfold RecordedReplaceOk; split <;> infer_instance
+
+/-- **the family guard of a step `replace_step` answered**, from: the shape facts and the payload validity of the
+    emitted slice (C11, by request class), the document valid and in normal form, the schema `textStableB`
+    (the payload of a replace-around answer with the gap content in place: `C11.aroundPayload_of_norm`), the new
+    document BMP, and `RecordedReplaceOk` -/
+theorem fitted_familyGuard (S : Schema) (hst : PM.FromDom.textStableB S = true) (doc doc' : Node) (f t : Nat)
+    (req : Slice) (hv : C01.Valid S doc) (hn : fnorm doc.kids = true) (s : Step)
+    (hr : replaceStep S doc f t req = .ok (some s))
+    (hwf : StepWF s = true ∧
+      (∀ F T G1 G2 sl' ins b, s = .replaceAround F T G1 G2 sl' ins b → aroundShape F T G1 G2 sl' ins = true))
+    (hp : ∃ sl', s.sliceOf = some sl' ∧ openValid S sl'.openStart sl'.openEnd sl'.content = true)
+    (hb : bmpDoc doc' = true) (hok : RecordedReplaceOk S s doc) : FamilyGuard S s doc doc' := by
+  have hal := undoAligned_of_bmp s doc' hb
+  rcases replaceStep_range S doc f t req s hr with ⟨T, sl', rfl, _⟩ | ⟨T, G2, sl', ins, rfl, _⟩
+  · obtain ⟨sl2, hs2, hval⟩ := hp
+    simp only [Step.sliceOf, Option.some.injEq] at hs2
+    subst hs2
+    exact ⟨hok, hval, hal⟩
+  · have hshape := hwf.2 _ _ _ _ _ _ _ rfl
+    simp only [aroundShape, Bool.and_eq_true, decide_eq_true_eq] at hshape
+    obtain ⟨⟨⟨⟨hwf', hins⟩, g1⟩, g2⟩, g3⟩ := hshape
+    have hpa := PM.C11.aroundPayload_of_norm S hst doc f t req hv hn _ hr hwf.1 hp
+      (by
+        intro sl2 hs2
+        simp only [Step.sliceOf, Option.some.injEq] at hs2
+        subst hs2
+        exact hok.1) _ _ _ _ _ _ _ rfl
+    exact ⟨hok.1, hwf', hins, ⟨g1, g2, g3⟩, hpa, fun hb' => by simp at hb', hok.2, hal⟩
+
+/-- the classes of `replace(from, to, slice)` requests covered: a **deletion** (`Slice.empty`); **typing /
+    inserting inline leaves** (a closed slice of valid leaf / text nodes); a well-formed slice that passes the
+    executable check `Slice.looseValid`, or **any slice cut from a valid document** (`src.slice a b`: what every
+    caller that copies content hands to `replace`) — these two with the decidable run hypothesis `unplacedWfRun`
+    of `C11.fit_emits_wf` (the unplaced rest of the slice stays well-formed while the Fitter runs) -/
+def ReplaceKind (S : Schema) (d : Node) (f t : Nat) (sl : Slice) : Prop :=
+  sl = Slice.empty ∨ (sl.inlineLeaves S = true ∧ sl.closedValid S = true) ∨
+  (sl.looseValid S = true ∧ sl.wf = true ∧ unplacedWfRun S d f t sl = true) ∨
+  ((∃ src a b, C01.Valid S src ∧ src.slice a b = .ok sl) ∧ unplacedWfRun S d f t sl = true)
+
+/-- structural edits, node-level edits, mark operations, and `replace` -/
+def editOp : Op → Bool
+  | .replace .. => true
+  | op => mixedOp op
+
+/-- what is asked of an operation of an editing history.  `replace(f, t, slice)`: `f ≤ t`; the current document's
+    element nodes have creatable types and attributes (`nodeAttrsOK`); the request is of one of the classes
+    `ReplaceKind`; the new document has no text outside the BMP; `RecordedReplaceOk` of the recorded step.  Every
+    other operation: `MixedResidual`. -/
+def EditResidual (S : Schema) (op : Op) (tr tr1 : Tr) : Prop :=
+  match op with
+  | .replace f t sl => f ≤ t ∧ S.nodeAttrsOK tr.doc = true ∧ ReplaceKind S tr.doc f t sl ∧
+      bmpDoc tr1.doc = true ∧ HistAll (fun s d _ => RecordedReplaceOk S s d) (appended tr tr1) tr1.doc
+  | op => MixedResidual S op tr tr1
+
+/-- **`replace(f, t, slice)` of one of the classes `ReplaceKind` as a whole operation**: `OpResidual` — the full family
+    guard of the recorded step — from `EditResidual` -/
+theorem replaceOp_residual (S : Schema) (hdet : PM.C11.detB S = true) (hfill : S.fillersOKB = true)
+    (hwrap : S.wrapOKB = true) (hlab : S.labelsOKB = true) (hleaf : PM.FromDom.leafOkB S = true)
+    (hts : textStableC S = true) (hcl : S.closableB = true) (hst : PM.FromDom.textStableB S = true)
+    (tr tr1 : Tr) (hlen : tr.steps.length = tr.docs.length) (hI : FamilyInv S tr.doc) (f t : Nat) (sl : Slice)
+    (h : tr.runOp S (.replace f t sl) = some tr1) (hres : EditResidual S (.replace f t sl) tr tr1) :
+    OpResidual S (.replace f t sl) tr tr1 := by
+  obtain ⟨hft, hattrs, hkind, hb, hrec⟩ := hres
+  show HistAll (FamilyGuard S) (appended tr tr1) tr1.doc
+  rcases replaceOp_recorded S tr tr1 hlen f t sl h with ⟨e, _⟩ | ⟨s, hr, e, _⟩
+  · rw [e]; trivial
+  · rw [e] at hrec ⊢
+    refine ⟨?_, trivial⟩
+    have hok : RecordedReplaceOk S s tr.doc := hrec.1
+    have hv : C01.Valid S tr.doc := hI.1
+    show FamilyGuard S s tr.doc tr1.doc
+    rcases hkind with rfl | ⟨hsl, hslv⟩ | ⟨hloose, hwf, hrun⟩ | ⟨⟨src, a, b, hsrc, hcut⟩, hrun⟩
+    · exact fitted_familyGuard S hst tr.doc tr1.doc f t _ hv hI.2 s hr
+        (PM.C11.delete_emits_wf S hdet hfill tr.doc f t hv hattrs hft s hr)
+        (PM.C11.delete_emits_valid_payload S hdet hleaf tr.doc f t hv hattrs s hr) hb hok
+    · exact fitted_familyGuard S hst tr.doc tr1.doc f t _ hv hI.2 s hr
+        (PM.C11.insertInline_emits_wf S hdet hfill hwrap tr.doc f t sl hsl hv hattrs hft s hr)
+        (PM.C11.insertInline_emits_valid_payload S hdet hfill hwrap hlab hleaf hts hcl tr.doc f t sl hsl hslv hv
+          hattrs s hr) hb hok
+    · exact fitted_familyGuard S hst tr.doc tr1.doc f t _ hv hI.2 s hr
+        (PM.C11.fit_emits_wf S hdet hfill hwrap hlab tr.doc f t sl hv hattrs hwf hft hrun s hr)
+        (PM.C11.fit_emits_valid_payload S hdet hfill hwrap hlab hleaf hts hcl tr.doc f t sl hloose hv hattrs hrun
+          s hr) hb hok
+    · exact fitted_familyGuard S hst tr.doc tr1.doc f t _ hv hI.2 s hr
+        (PM.C11.fit_emits_wf S hdet hfill hwrap hlab tr.doc f t sl hv hattrs (sliceKids_wf _ _ _ _ hcut) hft hrun s
+          hr)
+        (PM.C11.fit_emits_valid_payload_cut S hdet hfill hwrap hlab hleaf hts hcl tr.doc f t src a b sl hsrc hcut hv
+          hattrs hrun s hr) hb hok
+
+/-- one operation of an editing history on a BMP document: `OpResidual` holds and the new document is again BMP -/
+theorem editOp_residual (S : Schema) (htr : compatTransB S = true) (htl : TextLoop S)
+    (hdet : PM.C11.detB S = true) (hfill : S.fillersOKB = true)
+    (hwrap : S.wrapOKB = true) (hlab : S.labelsOKB = true) (hleaf : PM.FromDom.leafOkB S = true)
+    (hts : textStableC S = true) (hcl : S.closableB = true) (hst : PM.FromDom.textStableB S = true)
+    (op : Op) (tr tr1 : Tr) (hop : editOp op = true)
+    (hlen : tr.steps.length = tr.docs.length) (hml : tr.maps.length = tr.steps.length)
+    (hI : FamilyInv S tr.doc) (hb : bmpDoc tr.doc = true)
+    (h : tr.runOp S op = some tr1) (hres : EditResidual S op tr tr1) :
+    OpResidual S op tr tr1 ∧ bmpDoc tr1.doc = true := by
+  cases op with
+  | replace f t sl =>
+    exact ⟨replaceOp_residual S hdet hfill hwrap hlab hleaf hts hcl hst tr tr1 hlen hI f t sl h hres, hres.2.2.2.1⟩
+  | _ => exact mixedOp_residual S htr htl _ tr tr1 hop hlen hml hI hb h hres
+
+/-- on a BMP document, an editing run meets `OpResidual` -/
+theorem editOps_residual (S : Schema) (htr : compatTransB S = true) (htl : TextLoop S)
+    (hdet : PM.C11.detB S = true) (hfill : S.fillersOKB = true)
+    (hwrap : S.wrapOKB = true) (hlab : S.labelsOKB = true) (hleaf : PM.FromDom.leafOkB S = true)
+    (hts : textStableC S = true) (hcl : S.closableB = true) (hst : PM.FromDom.textStableB S = true) :
+    ∀ (ops : List Op) (tr : Tr), tr.steps.length = tr.docs.length → tr.maps.length = tr.steps.length →
+    FamilyInv S tr.doc → bmpDoc tr.doc = true →
+    (∀ op ∈ ops, editOp op = true) → OpsAll S (EditResidual S) tr ops → OpsAll S (OpResidual S) tr ops
+  | [], _, _, _, _, _, _, _ => trivial
+  | op :: ops, tr, hlen, hml, hI, hb, hall, hres => by
+    simp only [OpsAll] at hres ⊢
+    cases h1 : tr.runOp S op with
+    | none => trivial
+    | some tr1 =>
+      simp only [h1] at hres ⊢
+      have hop := hall op (List.mem_cons_self ..)
+      obtain ⟨hr1, hb1⟩ := editOp_residual S htr htl hdet hfill hwrap hlab hleaf hts hcl hst op tr tr1 hop hlen hml
+        hI hb h1 hres.1
+      refine ⟨hr1, ?_⟩
+      obtain ⟨h2, e1, l1, n1, r1⟩ := (Tr.runOp_grows op h1).hist hlen
+      have g1 := op_family S op tr tr1 hlen hI h1 hr1
+      rw [appended_eq e1] at g1
+      have hI1 : FamilyInv S tr1.doc :=
+        (chain_of_invariant S (FamilyInv S) (FamilyGuard S) (family_step S htr htl) h2 tr1.doc
+          (by rw [n1]; exact hI) r1 g1).2
+      exact editOps_residual S htr htl hdet hfill hwrap hlab hleaf hts hcl hst ops tr1 l1
+        ((Tr.runOp_grows op h1).maps_len hml) hI1 hb1
+        (fun o ho => hall o (List.mem_cons_of_mem _ ho)) hres.2
+
+/-- **an editing history is undone exactly** — structural edits (`split`, `join`, `lift`, `wrap`, `set_node_markup`,
+    `set_block_type` to plain types), node-level edits, mark operations, **deletions, typing / inserting inline
+    leaves, and `replace` with a loosely valid slice (every slice cut from a valid document)**, in any order.
+    Schema guards (all Boolean, all true of the bundled family); `doc` valid, in normal form, no text outside the
+    BMP; per operation `EditResidual`: for `replace(f, t, slice)` facts about the operation's arguments on the
+    current document (`f ≤ t`, `nodeAttrsOK`, the class of the slice with its run hypothesis `unplacedWfRun`), about
+    the new document (BMP) and about the recorded step (`RecordedReplaceOk`: normal form of the emitted slice;
+    `gapFitsBack` for a replace-around answer) — nothing about the Fitter's internal state; no payload, shape or
+    pair-alignment hypothesis. -/
+theorem editHistory_undo_bmp (S : Schema) (htr : compatTransB S = true) (htl : TextLoop S)
+    (hdet : PM.C11.detB S = true) (hfill : S.fillersOKB = true)
+    (hwrap : S.wrapOKB = true) (hlab : S.labelsOKB = true) (hleaf : PM.FromDom.leafOkB S = true)
+    (hts : textStableC S = true) (hcl : S.closableB = true) (hst : PM.FromDom.textStableB S = true)
+    (doc : Node) (ops : List Op) (tr' : Tr) (hd : S.checkNode doc = true) (hn : fnorm doc.kids = true)
+    (hb : bmpDoc doc = true) (hall : ∀ op ∈ ops, editOp op = true)
+    (h : (Tr.init doc).runOps S ops = some tr')
+    (hres : OpsAll S (EditResidual S) (Tr.init doc) ops) :
+    tr'.undo S = .ok doc ∧ FamilyInv S tr'.doc :=
+  opHistory_undo S htr htl doc ops tr' hd hn h
+    (editOps_residual S htr htl hdet hfill hwrap hlab hleaf hts hcl hst ops (Tr.init doc) rfl rfl ⟨hd, hn⟩ hb
+      hall hres)
+
+/-! #### the new document of a deletion / an inline insertion is BMP again -/
+
+theorem all_noHigh_iff : ∀ (l : List Tok), l.all Tok.noHigh = true ↔ ∀ c ∈ textUnits l, isHigh c = false
+  | [] => by simp [textUnits]
+  | x :: r => by
+    have ih := all_noHigh_iff r
+    cases x <;> simp [textUnits, Tok.noHigh, ih]
+
+theorem isSubseq_mem {α} [DecidableEq α] : ∀ (a b : List α), isSubseq a b = true → ∀ c ∈ a, c ∈ b
+  | [], _, _, c, hc => by cases hc
+  | _ :: _, [], h, _, _ => by simp [isSubseq] at h
+  | x :: xs, y :: ys, h, c, hc => by
+    unfold isSubseq at h
+    split at h
+    · rename_i e
+      subst e
+      rcases List.mem_cons.mp hc with rfl | hm
+      · exact List.mem_cons_self
+      · exact List.mem_cons_of_mem _ (isSubseq_mem xs ys h c hm)
+    · exact List.mem_cons_of_mem _ (isSubseq_mem (x :: xs) ys h c hc)
+
+/-- content kept around the range, inserted text from BMP text only: the new document is BMP -/
+theorem bmp_of_kept (d d' : Node) (f t : Nat) (req : List Nat) (hb : bmpDoc d = true)
+    (hreq : ∀ c ∈ req, isHigh c = false)
+    (hk : PM.C11.Kept (ftoks d.kids) (ftoks d'.kids) f t req) : bmpDoc d' = true := by
+  obtain ⟨mid, e, hs⟩ := hk.text
+  unfold bmpDoc at hb ⊢
+  rw [all_noHigh_iff] at hb ⊢
+  intro c hc
+  rw [e] at hc
+  simp only [List.mem_append] at hc
+  rcases hc with (hc | hc) | hc
+  · exact hb c ((textUnits_sublist (List.take_sublist _ _)).subset hc)
+  · exact hreq c (isSubseq_mem _ _ hs c hc)
+  · exact hb c ((textUnits_sublist (List.drop_sublist _ _)).subset hc)
+
+/-- the text of a slice is BMP -/
+def sliceBmp (sl : Slice) : Bool := (sliceToks' sl).all Tok.noHigh
+
+/-- **the new document of a fitted replace is BMP when the document and the requested slice are**: the tokens of the new
+    document are tokens of the old one and tokens of the emitted slice (`apply_replace_toks`,
+    `apply_replaceAround_toks`), and the text of the emitted slice is a subsequence of the requested text
+    (`C11.fit_text`) -/
+theorem fitted_bmp (S : Schema) (doc doc' : Node) (f t : Nat) (req : Slice) (hwf : req.wf = true) (s : Step)
+    (hr : replaceStep S doc f t req = .ok (some s))
+    (hsh : ∀ F T G1 G2 sl' ins b, s = .replaceAround F T G1 G2 sl' ins b → aroundShape F T G1 G2 sl' ins = true)
+    (ha : S.apply s doc = .ok doc') (hb : bmpDoc doc = true) (hsb : sliceBmp req = true) :
+    bmpDoc doc' = true := by
+  obtain ⟨sl', hs, hsub⟩ := PM.C11.fit_text S doc f t req s hwf hr
+  unfold sliceBmp at hsb
+  unfold bmpDoc at hb ⊢
+  rw [all_noHigh_iff] at hb hsb ⊢
+  have hsl : ∀ c ∈ textUnits sl'.toks, isHigh c = false := fun c hc => hsb c (hsub.subset hc)
+  rcases replaceStep_range S doc f t req s hr with ⟨T, sl2, rfl, _⟩ | ⟨T, G2, sl2, ins, rfl, _⟩
+  · simp only [Step.sliceOf, Option.some.injEq] at hs
+    subst hs
+    obtain ⟨e, _⟩ := apply_replace_toks S doc doc' f T sl2 false ha
+    intro c hc
+    rw [e] at hc
+    simp only [textUnits_append, List.mem_append] at hc
+    rcases hc with (hc | hc) | hc
+    · exact hb c ((textUnits_sublist (List.take_sublist _ _)).subset hc)
+    · exact hsl c hc
+    · exact hb c ((textUnits_sublist (List.drop_sublist _ _)).subset hc)
+  · simp only [Step.sliceOf, Option.some.injEq] at hs
+    subst hs
+    have hshape := hsh _ _ _ _ _ _ _ rfl
+    simp only [aroundShape, Bool.and_eq_true, decide_eq_true_eq] at hshape
+    obtain ⟨⟨⟨⟨hwf', hins⟩, g1⟩, g2⟩, g3⟩ := hshape
+    obtain ⟨e, _⟩ := apply_replaceAround_toks S doc doc' f T t G2 sl2 ins false hwf' hins ⟨g1, g2, g3⟩ ha
+    intro c hc
+    rw [e] at hc
+    simp only [textUnits_append, List.mem_append] at hc
+    rcases hc with (((hc | hc) | hc) | hc) | hc
+    · exact hb c ((textUnits_sublist (List.take_sublist _ _)).subset hc)
+    · exact hsl c ((textUnits_sublist (List.take_sublist _ _)).subset hc)
+    · exact hb c ((textUnits_sublist ((List.take_sublist _ _).trans (List.drop_sublist _ _))).subset hc)
+    · exact hsl c ((textUnits_sublist (List.drop_sublist _ _)).subset hc)
+    · exact hb c ((textUnits_sublist (List.drop_sublist _ _)).subset hc)
+
+/-- what is asked of the replace-around answer to a deletion: the fit guard of its inverse -/
+def AroundFitsBack (S : Schema) (s : Step) (d : Node) : Prop :=
+  match s with
+  | .replaceAround f t gf gt _ _ _ => gapFitsBack S d f t gf gt = true
+  | _ => True
+
+/-- `EditResidual` with what is derivable derived.  `replace(f, t, slice)`: `f ≤ t`, `nodeAttrsOK` of the current
+    document, and by class
+    * **deletion**: only `gapFitsBack` if the recorded step is a `ReplaceAroundStep` — the emitted slice has no text node
+      (normal form: `replaceStep_empty_norm`), the new document is BMP (`C11.delete_valid`: its text is the text
+      outside the range);
+    * **typing / inline leaves** with BMP text (`sliceBmp`): `RecordedReplaceOk` — the new document is BMP
+      (`C11.insertInline_valid_of_norm`: its text is the old text around the range and text of the slice);
+    * **loosely valid / cut from a valid document**: `unplacedWfRun`, BMP text in the slice (`fitted_bmp`; or the new
+      document BMP), `RecordedReplaceOk`.
+    Every other operation: `MixedResidual`. -/
+def EditResidual' (S : Schema) (op : Op) (tr tr1 : Tr) : Prop :=
+  match op with
+  | .replace f t sl => f ≤ t ∧ S.nodeAttrsOK tr.doc = true ∧
+      ((sl = Slice.empty ∧ HistAll (fun s d _ => AroundFitsBack S s d) (appended tr tr1) tr1.doc) ∨
+       (sl.inlineLeaves S = true ∧ sl.closedValid S = true ∧ sliceBmp sl = true ∧
+          HistAll (fun s d _ => RecordedReplaceOk S s d) (appended tr tr1) tr1.doc) ∨
+       (((sl.looseValid S = true ∧ sl.wf = true) ∨ ∃ src a b, C01.Valid S src ∧ src.slice a b = .ok sl) ∧
+          unplacedWfRun S tr.doc f t sl = true ∧ (sliceBmp sl = true ∨ bmpDoc tr1.doc = true) ∧
+          HistAll (fun s d _ => RecordedReplaceOk S s d) (appended tr tr1) tr1.doc))
+  | op => MixedResidual S op tr tr1
+
+/-- `EditResidual'` implies `EditResidual` on a valid BMP document in normal form -/
+theorem editResidual_of' (S : Schema) (hdet : PM.C11.detB S = true) (hfill : S.fillersOKB = true)
+    (hwrap : S.wrapOKB = true) (hlab : S.labelsOKB = true) (hleaf : PM.FromDom.leafOkB S = true)
+    (hts : textStableC S = true) (hcl : S.closableB = true) (hst : PM.FromDom.textStableB S = true)
+    (op : Op) (tr tr1 : Tr) (hlen : tr.steps.length = tr.docs.length) (hI : FamilyInv S tr.doc)
+    (hb : bmpDoc tr.doc = true) (h : tr.runOp S op = some tr1) (hres : EditResidual' S op tr tr1) :
+    EditResidual S op tr tr1 := by
+  cases op with
+  | replace f t sl =>
+    obtain ⟨hft, hattrs, hk⟩ := hres
+    have hv : C01.Valid S tr.doc := hI.1
+    rcases hk with ⟨rfl, hrec⟩ | ⟨hsl, hslv, hsb, hrec⟩ | ⟨hk, hrun, hb1, hrec⟩
+    · refine ⟨hft, hattrs, Or.inl rfl, ?_⟩
+      rcases replaceOp_recorded S tr tr1 hlen f t _ h with ⟨e, ed⟩ | ⟨s, hr, e, ha⟩
+      · rw [e, ed]; exact ⟨hb, trivial⟩
+      · rw [e] at hrec ⊢
+        have hn := replaceStep_empty_norm S tr.doc f t hv s hr
+        have hkept := (PM.C11.delete_valid S hdet hfill hleaf tr.doc tr1.doc f t hv hattrs hft s hr ha).2.1
+        refine ⟨bmp_of_kept tr.doc tr1.doc f t [] hb (fun c hc => by cases hc) hkept, ?_, trivial⟩
+        have h1 : AroundFitsBack S s tr.doc := hrec.1
+        show RecordedReplaceOk S s tr.doc
+        cases s with
+        | replace F T sl0 b0 => exact hn _ rfl
+        | replaceAround F T G1 G2 sl0 ins b0 => exact ⟨hn _ rfl, h1⟩
+        | _ => trivial
+    · refine ⟨hft, hattrs, Or.inr (Or.inl ⟨hsl, hslv⟩), ?_, hrec⟩
+      rcases replaceOp_recorded S tr tr1 hlen f t _ h with ⟨e, ed⟩ | ⟨s, hr, e, ha⟩
+      · rw [ed]; exact hb
+      · rw [e] at hrec
+        have hok : RecordedReplaceOk S s tr.doc := hrec.1
+        have hkept := (PM.C11.insertInline_valid_of_norm S hdet hfill hwrap hlab hleaf hts hcl hst tr.doc tr1.doc f t sl
+          hsl hslv hv hI.2 hattrs hft s hr (by
+            intro F T G1 G2 sl' ins b e'
+            subst e'
+            exact hok.1) ha).2
+        refine bmp_of_kept tr.doc tr1.doc f t _ hb ?_ hkept
+        unfold sliceBmp at hsb
+        exact (all_noHigh_iff _).mp hsb
+    · have hwf : sl.wf = true := by
+        rcases hk with ⟨_, h2⟩ | ⟨src, a, b, _, hcut⟩
+        · exact h2
+        · exact sliceKids_wf _ _ _ _ hcut
+      have hb1' : bmpDoc tr1.doc = true := by
+        rcases hb1 with hsb | hb1
+        · rcases replaceOp_recorded S tr tr1 hlen f t _ h with ⟨_, ed⟩ | ⟨s, hr, _, ha⟩
+          · rw [ed]; exact hb
+          · exact fitted_bmp S tr.doc tr1.doc f t sl hwf s hr
+              (PM.C11.fit_emits_wf S hdet hfill hwrap hlab tr.doc f t sl hv hattrs hwf hft hrun s hr).2 ha hb hsb
+        · exact hb1
+      refine ⟨hft, hattrs, ?_, hb1', hrec⟩
+      rcases hk with ⟨h1, h2⟩ | hcut
+      · exact Or.inr (Or.inr (Or.inl ⟨h1, h2, hrun⟩))
+      · exact Or.inr (Or.inr (Or.inr ⟨hcut, hrun⟩))
+  | _ => exact hres
+
+/-- on a BMP document, an editing run with `EditResidual'` meets `OpResidual` -/
+theorem editOps_residual' (S : Schema) (htr : compatTransB S = true) (htl : TextLoop S)
+    (hdet : PM.C11.detB S = true) (hfill : S.fillersOKB = true)
+    (hwrap : S.wrapOKB = true) (hlab : S.labelsOKB = true) (hleaf : PM.FromDom.leafOkB S = true)
+    (hts : textStableC S = true) (hcl : S.closableB = true) (hst : PM.FromDom.textStableB S = true) :
+    ∀ (ops : List Op) (tr : Tr), tr.steps.length = tr.docs.length → tr.maps.length = tr.steps.length →
+    FamilyInv S tr.doc → bmpDoc tr.doc = true →
+    (∀ op ∈ ops, editOp op = true) → OpsAll S (EditResidual' S) tr ops → OpsAll S (OpResidual S) tr ops
+  | [], _, _, _, _, _, _, _ => trivial
+  | op :: ops, tr, hlen, hml, hI, hb, hall, hres => by
+    simp only [OpsAll] at hres ⊢
+    cases h1 : tr.runOp S op with
+    | none => trivial
+    | some tr1 =>
+      simp only [h1] at hres ⊢
+      have hop := hall op (List.mem_cons_self ..)
+      have hres1 := editResidual_of' S hdet hfill hwrap hlab hleaf hts hcl hst op tr tr1 hlen hI hb h1 hres.1
+      obtain ⟨hr1, hb1⟩ := editOp_residual S htr htl hdet hfill hwrap hlab hleaf hts hcl hst op tr tr1 hop hlen hml
+        hI hb h1 hres1
+      refine ⟨hr1, ?_⟩
+      obtain ⟨h2, e1, l1, n1, r1⟩ := (Tr.runOp_grows op h1).hist hlen
+      have g1 := op_family S op tr tr1 hlen hI h1 hr1
+      rw [appended_eq e1] at g1
+      have hI1 : FamilyInv S tr1.doc :=
+        (chain_of_invariant S (FamilyInv S) (FamilyGuard S) (family_step S htr htl) h2 tr1.doc
+          (by rw [n1]; exact hI) r1 g1).2
+      exact editOps_residual' S htr htl hdet hfill hwrap hlab hleaf hts hcl hst ops tr1 l1
+        ((Tr.runOp_grows op h1).maps_len hml) hI1 hb1
+        (fun o ho => hall o (List.mem_cons_of_mem _ ho)) hres.2
+
+/-- **`editHistory_undo_bmp` with the derivable hypotheses derived** (`EditResidual'`): a deletion asks for nothing
+    but `f ≤ t`, `nodeAttrsOK` of the current document and — only when the Fitter answered a `ReplaceAroundStep` —
+    `gapFitsBack`; typing / inserting inline leaves asks for BMP text in the slice instead of a BMP result. -/
+theorem editHistory_undo_bmp' (S : Schema) (htr : compatTransB S = true) (htl : TextLoop S)
+    (hdet : PM.C11.detB S = true) (hfill : S.fillersOKB = true)
+    (hwrap : S.wrapOKB = true) (hlab : S.labelsOKB = true) (hleaf : PM.FromDom.leafOkB S = true)
+    (hts : textStableC S = true) (hcl : S.closableB = true) (hst : PM.FromDom.textStableB S = true)
+    (doc : Node) (ops : List Op) (tr' : Tr) (hd : S.checkNode doc = true) (hn : fnorm doc.kids = true)
+    (hb : bmpDoc doc = true) (hall : ∀ op ∈ ops, editOp op = true)
+    (h : (Tr.init doc).runOps S ops = some tr')
+    (hres : OpsAll S (EditResidual' S) (Tr.init doc) ops) :
+    tr'.undo S = .ok doc ∧ FamilyInv S tr'.doc :=
+  opHistory_undo S htr htl doc ops tr' hd hn h
+    (editOps_residual' S htr htl hdet hfill hwrap hlab hleaf hts hcl hst ops (Tr.init doc) rfl rfl ⟨hd, hn⟩ hb
+      hall hres)
+
+/-- **every replace-around answer of `replace_step` fits back** (schema with `TextLoop`, document valid, in normal
+    form, BMP; the step applied): its gap `[to, to.end())` runs to the end of the parent of `to` — the token behind
+    it is that node's closing token (`replaceStep_range`) — so after `remove_between` the gap goes back at the end
+    of that node's remaining content, where `insert_into`'s `can_replace` check sees the node's original content
+    with at most one text child doubled (`gapFitsBack_of_tail`, Proofs/GapTailFits.lean).  The gap may start
+    inside a text child (not `gapClean`); finding C04-around-text-gap needs a schema without `TextLoop`. -/
+theorem fit_around_gapFitsBack (S : Schema) (htl : TextLoop S) (doc doc' : Node) (f t : Nat) (req : Slice)
+    (hd : S.checkNode doc = true) (hn : fnorm doc.kids = true) (hb : bmpDoc doc = true) (hft : f ≤ t) (s : Step)
+    (hr : replaceStep S doc f t req = .ok (some s)) (ha : S.apply s doc = .ok doc') :
+    AroundFitsBack S s doc := by
+  rcases replaceStep_range S doc f t req s hr with ⟨T, sl', rfl, _⟩ | ⟨T, G2, sl', ins, rfl, h1, h2, h3, h4⟩
+  · trivial
+  · show gapFitsBack S doc f T t G2 = true
+    have hg : f ≤ t ∧ t ≤ G2 ∧ G2 ≤ T := ⟨hft, h1, by omega⟩
+    obtain ⟨inv, hi⟩ := invert_ok_replaceAround_full S doc doc' f T t G2 sl' ins false hn hg
+      (Or.inr (alignedAt_of_bmp doc.kids t hb)) ha
+    obtain ⟨gap, inserted, hgap, hgo1, hgo2, _, _⟩ := apply_replaceAround_parts S doc doc' f T t G2 sl' ins false ha
+    simp only [Schema.invert] at hi
+    cases hsl : doc.slice f T with
+    | error e => simp [hsl] at hi
+    | ok old =>
+      simp only [hsl] at hi
+      cases hrm : old.removeBetween (t - f) (G2 - f) with
+      | error e => simp [hrm] at hi
+      | ok rem =>
+        exact gapFitsBack_of_tail S htl doc f T t G2 old rem gap hd hn ⟨hft, h1, h2⟩ h3 hsl hgap ⟨hgo1, hgo2⟩ hrm
+          (h4 G2 (Nat.le_refl _) h2)
+
+/-- the slice of a recorded replace / replace-around step is in normal form -/
+def RecordedNorm (s : Step) : Prop :=
+  match s with
+  | .replace _ _ sl _ => fnorm sl.content = true
+  | .replaceAround _ _ _ _ sl _ _ => fnorm sl.content = true
+  | _ => True
+
+instance (s : Step) : Decidable (RecordedNorm s) := by
+  unfold RecordedNorm; split <;> infer_instance
+
+/-- **what is asked of an operation of an editing history, final form** (schema with `TextLoop`: no `gapFitsBack`).
+    `replace(f, t, slice)`: `f ≤ t`, `nodeAttrsOK` of the current document, and by class
+    * **deletion** (`Slice.empty`): nothing more;
+    * **typing / inline leaves** (`inlineLeaves`, `closedValid`) with BMP text: the emitted slice in normal form;
+    * **loosely valid / cut from a valid document**: the run hypothesis `unplacedWfRun`, BMP text in the slice (or a
+      BMP result), the emitted slice in normal form.
+    Every other operation: `MixedResidual`. -/
+def EditHyps (S : Schema) (op : Op) (tr tr1 : Tr) : Prop :=
+  match op with
+  | .replace f t sl => f ≤ t ∧ S.nodeAttrsOK tr.doc = true ∧
+      (sl = Slice.empty ∨
+       (sl.inlineLeaves S = true ∧ sl.closedValid S = true ∧ sliceBmp sl = true ∧
+          HistAll (fun s _ _ => RecordedNorm s) (appended tr tr1) tr1.doc) ∨
+       (((sl.looseValid S = true ∧ sl.wf = true) ∨ ∃ src a b, C01.Valid S src ∧ src.slice a b = .ok sl) ∧
+          unplacedWfRun S tr.doc f t sl = true ∧ (sliceBmp sl = true ∨ bmpDoc tr1.doc = true) ∧
+          HistAll (fun s _ _ => RecordedNorm s) (appended tr tr1) tr1.doc))
+  | op => MixedResidual S op tr tr1
+
+/-- `EditHyps` implies `EditResidual'` on a valid BMP document in normal form, for a schema with `TextLoop` -/
+theorem editResidual'_of_hyps (S : Schema) (htl : TextLoop S)
+    (op : Op) (tr tr1 : Tr) (hlen : tr.steps.length = tr.docs.length) (hI : FamilyInv S tr.doc)
+    (hb : bmpDoc tr.doc = true) (h : tr.runOp S op = some tr1) (hres : EditHyps S op tr tr1) :
+    EditResidual' S op tr tr1 := by
+  cases op with
+  | replace f t sl =>
+    obtain ⟨hft, hattrs, hk⟩ := hres
+    refine ⟨hft, hattrs, ?_⟩
+    have key : ∀ (P : Step → Prop), HistAll (fun s _ _ => P s) (appended tr tr1) tr1.doc →
+        HistAll (fun s d _ => P s ∧ AroundFitsBack S s d) (appended tr tr1) tr1.doc := by
+      intro P hP
+      rcases replaceOp_recorded S tr tr1 hlen f t sl h with ⟨e, _⟩ | ⟨s, hr, e, ha⟩
+      · rw [e]; trivial
+      · rw [e] at hP ⊢
+        exact ⟨⟨hP.1, fit_around_gapFitsBack S htl tr.doc tr1.doc f t sl hI.1 hI.2 hb hft s hr ha⟩, trivial⟩
+    have conv : HistAll (fun s _ _ => RecordedNorm s) (appended tr tr1) tr1.doc →
+        HistAll (fun s d _ => RecordedReplaceOk S s d) (appended tr tr1) tr1.doc := by
+      intro hP
+      refine histAll_mono ?_ _ _ (key _ hP)
+      intro s d _ ⟨h1, h2⟩
+      cases s with
+      | replace _ _ _ _ => exact h1
+      | replaceAround _ _ _ _ _ _ _ => exact ⟨h1, h2⟩
+      | _ => trivial
+    rcases hk with rfl | ⟨hsl, hslv, hsb, hrec⟩ | ⟨hk, hrun, hb1, hrec⟩
+    · refine Or.inl ⟨rfl, ?_⟩
+      have := key (fun _ => True) (histAll_mono (fun _ _ _ _ => trivial) _ _
+        (show HistAll (fun _ _ _ => True) (appended tr tr1) tr1.doc from by
+          generalize appended tr tr1 = l
+          induction l with
+          | nil => trivial
+          | cons x xs ih => exact ⟨trivial, ih⟩))
+      exact histAll_mono (fun s d _ hh => hh.2) _ _ this
+    · exact Or.inr (Or.inl ⟨hsl, hslv, hsb, conv hrec⟩)
+    · exact Or.inr (Or.inr ⟨hk, hrun, hb1, conv hrec⟩)
+  | _ => exact hres
+
+/-- on a BMP document, an editing run with `EditHyps` meets `OpResidual` -/
+theorem editOps_hyps (S : Schema) (htr : compatTransB S = true) (htl : TextLoop S)
+    (hdet : PM.C11.detB S = true) (hfill : S.fillersOKB = true)
+    (hwrap : S.wrapOKB = true) (hlab : S.labelsOKB = true) (hleaf : PM.FromDom.leafOkB S = true)
+    (hts : textStableC S = true) (hcl : S.closableB = true) (hst : PM.FromDom.textStableB S = true) :
+    ∀ (ops : List Op) (tr : Tr), tr.steps.length = tr.docs.length → tr.maps.length = tr.steps.length →
+    FamilyInv S tr.doc → bmpDoc tr.doc = true →
+    (∀ op ∈ ops, editOp op = true) → OpsAll S (EditHyps S) tr ops → OpsAll S (OpResidual S) tr ops
+  | [], _, _, _, _, _, _, _ => trivial
+  | op :: ops, tr, hlen, hml, hI, hb, hall, hres => by
+    simp only [OpsAll] at hres ⊢
+    cases h1 : tr.runOp S op with
+    | none => trivial
+    | some tr1 =>
+      simp only [h1] at hres ⊢
+      have hop := hall op (List.mem_cons_self ..)
+      have hres0 := editResidual'_of_hyps S htl op tr tr1 hlen hI hb h1 hres.1
+      have hres1 := editResidual_of' S hdet hfill hwrap hlab hleaf hts hcl hst op tr tr1 hlen hI hb h1 hres0
+      obtain ⟨hr1, hb1⟩ := editOp_residual S htr htl hdet hfill hwrap hlab hleaf hts hcl hst op tr tr1 hop hlen hml
+        hI hb h1 hres1
+      refine ⟨hr1, ?_⟩
+      obtain ⟨h2, e1, l1, n1, r1⟩ := (Tr.runOp_grows op h1).hist hlen
+      have g1 := op_family S op tr tr1 hlen hI h1 hr1
+      rw [appended_eq e1] at g1
+      have hI1 : FamilyInv S tr1.doc :=
+        (chain_of_invariant S (FamilyInv S) (FamilyGuard S) (family_step S htr htl) h2 tr1.doc
+          (by rw [n1]; exact hI) r1 g1).2
+      exact editOps_hyps S htr htl hdet hfill hwrap hlab hleaf hts hcl hst ops tr1 l1
+        ((Tr.runOp_grows op h1).maps_len hml) hI1 hb1
+        (fun o ho => hall o (List.mem_cons_of_mem _ ho)) hres.2
+
+/-- **an editing history is undone exactly — operation-level hypotheses only.**  Structural edits, node-level edits,
+    mark operations, deletions, typing / inserting inline leaves, `replace` with a loosely valid slice or a slice cut
+    from a valid document, in any order.  Schema guards: all Boolean, all true of the bundled family.  `doc` valid,
+    in normal form, BMP.  Per operation `EditHyps`: for a **deletion** `f ≤ t` and `nodeAttrsOK` of the current
+    document, nothing about the recorded step; for the other `replace` classes additionally BMP text, the run
+    hypothesis `unplacedWfRun` (loosely valid / cut slices) and the normal form of the emitted slice.  No payload,
+    shape, pair-alignment or `gapFitsBack` hypothesis; nothing about the Fitter's internal state. -/
+theorem editHistory_undo (S : Schema) (htr : compatTransB S = true) (htl : TextLoop S)
+    (hdet : PM.C11.detB S = true) (hfill : S.fillersOKB = true)
+    (hwrap : S.wrapOKB = true) (hlab : S.labelsOKB = true) (hleaf : PM.FromDom.leafOkB S = true)
+    (hts : textStableC S = true) (hcl : S.closableB = true) (hst : PM.FromDom.textStableB S = true)
+    (doc : Node) (ops : List Op) (tr' : Tr) (hd : S.checkNode doc = true) (hn : fnorm doc.kids = true)
+    (hb : bmpDoc doc = true) (hall : ∀ op ∈ ops, editOp op = true)
+    (h : (Tr.init doc).runOps S ops = some tr')
+    (hres : OpsAll S (EditHyps S) (Tr.init doc) ops) :
+    tr'.undo S = .ok doc ∧ FamilyInv S tr'.doc :=
+  opHistory_undo S htr htl doc ops tr' hd hn h
+    (editOps_hyps S htr htl hdet hfill hwrap hlab hleaf hts hcl hst ops (Tr.init doc) rfl rfl ⟨hd, hn⟩ hb
+      hall hres)
+
+/-- **a deletion as a whole operation, no hypothesis about the recorded step**: `Transform.delete(f, t)` =
+    `replace(f, t, Slice.empty)` on a valid BMP document in normal form whose element nodes are creatable
+    (`nodeAttrsOK`), `f ≤ t`: `OpResidual` — the full family guard of whatever step the Fitter answered, replace or
+    replace-around — holds, and the new document is BMP again.  Payload validity, shape, normal form of the emitted
+    slice (`replaceStep_empty_norm`), `gapFitsBack` (`fit_around_gapFitsBack`) and pair-alignment are all derived. -/
+theorem deleteOp_residual (S : Schema) (htr : compatTransB S = true) (htl : TextLoop S)
+    (hdet : PM.C11.detB S = true) (hfill : S.fillersOKB = true)
+    (hwrap : S.wrapOKB = true) (hlab : S.labelsOKB = true) (hleaf : PM.FromDom.leafOkB S = true)
+    (hts : textStableC S = true) (hcl : S.closableB = true) (hst : PM.FromDom.textStableB S = true)
+    (tr tr1 : Tr) (hlen : tr.steps.length = tr.docs.length) (hml : tr.maps.length = tr.steps.length)
+    (hI : FamilyInv S tr.doc) (hb : bmpDoc tr.doc = true) (hattrs : S.nodeAttrsOK tr.doc = true)
+    (f t : Nat) (hft : f ≤ t) (h : tr.runOp S (.replace f t Slice.empty) = some tr1) :
+    OpResidual S (.replace f t Slice.empty) tr tr1 ∧ bmpDoc tr1.doc = true := by
+  have h0 : EditHyps S (.replace f t Slice.empty) tr tr1 := ⟨hft, hattrs, Or.inl rfl⟩
+  have h1 := editResidual'_of_hyps S htl _ tr tr1 hlen hI hb h h0
+  have h2 := editResidual_of' S hdet hfill hwrap hlab hleaf hts hcl hst _ tr tr1 hlen hI hb h h1
+  exact editOp_residual S htr htl hdet hfill hwrap hlab hleaf hts hcl hst _ tr tr1 rfl hlen hml hI hb h h2
+
+/-- **typing / inserting inline leaves as a whole operation**: the only hypothesis about the recorded step is the
+    normal form of the emitted slice -/
+theorem insertInlineOp_residual (S : Schema) (htr : compatTransB S = true) (htl : TextLoop S)
+    (hdet : PM.C11.detB S = true) (hfill : S.fillersOKB = true)
+    (hwrap : S.wrapOKB = true) (hlab : S.labelsOKB = true) (hleaf : PM.FromDom.leafOkB S = true)
+    (hts : textStableC S = true) (hcl : S.closableB = true) (hst : PM.FromDom.textStableB S = true)
+    (tr tr1 : Tr) (hlen : tr.steps.length = tr.docs.length) (hml : tr.maps.length = tr.steps.length)
+    (hI : FamilyInv S tr.doc) (hb : bmpDoc tr.doc = true) (hattrs : S.nodeAttrsOK tr.doc = true)
+    (f t : Nat) (hft : f ≤ t) (sl : Slice) (hsl : sl.inlineLeaves S = true) (hslv : sl.closedValid S = true)
+    (hsb : sliceBmp sl = true) (h : tr.runOp S (.replace f t sl) = some tr1)
+    (hnorm : HistAll (fun s _ _ => RecordedNorm s) (appended tr tr1) tr1.doc) :
+    OpResidual S (.replace f t sl) tr tr1 ∧ bmpDoc tr1.doc = true := by
+  have h0 : EditHyps S (.replace f t sl) tr tr1 := ⟨hft, hattrs, Or.inr (Or.inl ⟨hsl, hslv, hsb, hnorm⟩)⟩
+  have h1 := editResidual'_of_hyps S htl _ tr tr1 hlen hI hb h h0
+  have h2 := editResidual_of' S hdet hfill hwrap hlab hleaf hts hcl hst _ tr tr1 hlen hI hb h h1
+  exact editOp_residual S htr htl hdet hfill hwrap hlab hleaf hts hcl hst _ tr tr1 rfl hlen hml hI hb h h2
+
+/-! #### non-vacuity of `editHistory_undo_bmp'`: schema `doc: para*`, `para: text*`, document `doc(para("ab"))` -/
+
+private def nvNt (name : String) (dfa : Array DfaState) : NodeType :=
+  { name := name, isText := false, isInline := false, isLeaf := false, isAtom := false,
+    inlineContent := false, isolating := false, defining := false, code := false,
+    dfa := dfa, markSet := some [], attrs := [] }
+private def nvDoc : Node := .elem 0 [] [] [.elem 1 [] [] [.text [97, 98] []]]
+private def nvS : Schema :=
+  { nodes := #[
+      nvNt "doc" #[⟨true, [(1, 0)]⟩],
+      { nvNt "para" #[⟨true, [(2, 0)]⟩] with inlineContent := true },
+      { nvNt "text" #[⟨true, []⟩] with isText := true, isInline := true, isLeaf := true, isAtom := true }],
+    marks := #[], top := 0, textTy := 2 }
+
+private def nvTyped : Slice := ⟨[.text [99] []], 0, 0⟩
+
+/-- the schema guards and the per-operation hypotheses of `EditResidual'` hold on concrete arguments: a deletion and
+    typing "c" -/
+example : PM.C11.detB nvS = true ∧ nvS.fillersOKB = true ∧ nvS.wrapOKB = true ∧ nvS.labelsOKB = true ∧
+    PM.FromDom.leafOkB nvS = true ∧ textStableC nvS = true ∧ nvS.closableB = true ∧
+    PM.FromDom.textStableB nvS = true ∧ compatTransB nvS = true ∧
+    nvS.checkNode nvDoc = true ∧ fnorm nvDoc.kids = true ∧ bmpDoc nvDoc = true ∧ nvS.nodeAttrsOK nvDoc = true ∧
+    -- a deletion: the recorded step is a `ReplaceStep`, nothing further is asked
+    replaceStep nvS nvDoc 1 2 Slice.empty = .ok (some (.replace 1 2 Slice.empty false)) ∧
+    AroundFitsBack nvS (.replace 1 2 Slice.empty false) nvDoc ∧
+    -- typing "c": class, BMP text, and `RecordedReplaceOk` of the recorded step
+    nvTyped.inlineLeaves nvS = true ∧ nvTyped.closedValid nvS = true ∧ sliceBmp nvTyped = true ∧
+    replaceStep nvS nvDoc 1 1 nvTyped = .ok (some (.replace 1 1 nvTyped false)) ∧
+    RecordedReplaceOk nvS (.replace 1 1 nvTyped false) nvDoc := by
+  refine ⟨by decide, by decide, by decide, by decide, by decide, by decide, by decide, by decide, by decide,
+    by decide, by decide, by decide, by decide, rfl, trivial, by decide, by decide, by decide, rfl, by decide⟩
+
+private theorem nv_apply : nvS.apply (.replace 1 2 Slice.empty false) nvDoc = .ok (.elem 0 [] [] [.elem 1 [] [] [.text [98] []]]) := by
+  have hv : nvS.validContent 1 [Node.text [98] []] = true := by decide
+  have hv0 : nvS.validContent 0 [Node.elem 1 [] [] [Node.text [98] []]] = true := by decide
+  have hs : splitOk [97, 98] 1 = true := by decide
+  simp [Schema.apply, Schema.fromReplace, Schema.replace, nvDoc, replaceKids, inRange, Slice.empty,
+    depthAt, Slice.wf, spineL, spineR, outer, atLevel, twoWay, splitRight, flatTail,
+    Schema.close, fromArray, addNodes, addNode, hv, hv0, hs, Except.map, RSplit.rest]
+
+private theorem nv_replaceF : ∃ st', (PSt.mk (Tr.init nvDoc) []).replaceF nvS 1 2 Slice.empty = .ok st' ∧
+    st'.tr.doc = .elem 0 [] [] [.elem 1 [] [] [.text [98] []]] := by
+  unfold PSt.replaceF
+  rw [if_neg (by decide)]
+  split
+  · rename_i rf rt hf ht
+    cases hf
+    cases ht
+    split
+    · rename_i e hfit
+      cases hfit.symm.trans (rfl : _ = Except.ok true)
+    · simp only [PSt.step, Tr.step, show (Tr.init nvDoc).doc = nvDoc from rfl, nv_apply, liftP, Except.map]
+      exact ⟨_, rfl, rfl⟩
+    · rename_i hfit
+      cases hfit.symm.trans (rfl : _ = Except.ok true)
+  · rename_i hne
+    exact (hne _ _ rfl rfl).elim
+
+private theorem nv_run : ∃ tr1, (Tr.init nvDoc).runOps nvS [.replace 1 2 Slice.empty] = some tr1 ∧
+    tr1.doc = .elem 0 [] [] [.elem 1 [] [] [.text [98] []]] := by
+  obtain ⟨st', h, hd⟩ := nv_replaceF
+  refine ⟨st'.tr, ?_, hd⟩
+  simp only [Tr.runOps, Tr.runOp, Tr.planned, h]
+/-- **non-vacuity, end to end**: on `doc(para("ab"))` the deletion `replace(1, 2, Slice.empty)` goes through, meets
+    `EditResidual'`, and `editHistory_undo_bmp'` applies: undoing restores the document -/
+example : ∃ tr', (Tr.init nvDoc).runOps nvS [.replace 1 2 Slice.empty] = some tr' ∧
+    tr'.doc = .elem 0 [] [] [.elem 1 [] [] [.text [98] []]] ∧ tr'.undo nvS = .ok nvDoc := by
+  obtain ⟨tr1, h, hd⟩ := nv_run
+  refine ⟨tr1, h, hd, (editHistory_undo_bmp' nvS (by decide) (PM.Family.textLoop_of_B _ (by decide)) (by decide)
+    (by decide) (by decide) (by decide) (by decide) (by decide) (by decide) (by decide) nvDoc _ tr1 (by decide)
+    (by decide) (by decide) (by decide) h ?_).1⟩
+  simp only [OpsAll]
+  split
+  · rename_i tr2 h2
+    refine ⟨⟨by decide, rfl, Or.inl ⟨rfl, ?_⟩⟩, trivial⟩
+    rcases replaceOp_recorded nvS _ tr2 rfl 1 2 _ h2 with ⟨e, _⟩ | ⟨s, hr, e, _⟩
+    · rw [e]; trivial
+    · rw [e]
+      have hs := hr.symm.trans (rfl : _ = Except.ok (some (Step.replace 1 2 Slice.empty false)))
+      simp only [Except.ok.injEq, Option.some.injEq] at hs
+      subst hs
+      exact ⟨trivial, trivial⟩
+  · trivial
+/-- **non-vacuity of `editHistory_undo`, end to end**: the deletion asks for nothing about the recorded step -/
+example : ∃ tr', (Tr.init nvDoc).runOps nvS [.replace 1 2 Slice.empty] = some tr' ∧ tr'.undo nvS = .ok nvDoc := by
+  obtain ⟨tr1, h, _⟩ := nv_run
+  refine ⟨tr1, h, (editHistory_undo nvS (by decide) (PM.Family.textLoop_of_B _ (by decide)) (by decide)
+    (by decide) (by decide) (by decide) (by decide) (by decide) (by decide) (by decide) nvDoc _ tr1 (by decide)
+    (by decide) (by decide) (by decide) h ?_).1⟩
+  simp only [OpsAll]
+  split
+  · exact ⟨⟨by decide, rfl, Or.inl rfl⟩, trivial⟩
+  · trivial
 end PM.C04
